@@ -52,6 +52,8 @@ def swarm_policy(rng: random.Random, topo: dict, funcs: list[str],
                                     for _ in range(d))
     pol['w_deliver'] = rng.choice([0.3, 1.0, 1.0, 3.0])
     if rng.random() < 0.25:
+        pol['timers'] = 'anytime'
+    if rng.random() < 0.25:
         ws = worker_names(topo)
         cands = [f'T:{w}/' for w in ws] + [f'>{w}' for w in ws]
         if topo['kind'] == 'detached':
